@@ -234,23 +234,26 @@ Section Loader.
     else if tool_known name then k (add_tool name s)
     else Stop (add_err E_invalid_tool s).
 
-  (* the scalar elements of a sequence; other elements are diagnosed with [code] and skipped *)
+  (* the scalar elements of a sequence; other elements are diagnosed with [code] and skipped
+     (values.push_back: the loop-carried list is kept most recent first and reversed at the end) *)
   Definition collect_scalars (code : N) (xs : list ynode) (s : bstate) : res (list bytes) :=
-    each (fun x s acc => with_type x (fun t => match t with
-                                               | KScalar => Go s (acc ++ [scalar_of x])
-                                               | _ => Go (add_err code s) acc
-                                               end)) xs s [].
+    bind (each (fun x s acc => with_type x (fun t => match t with
+                                                     | KScalar => Go s (scalar_of x :: acc)
+                                                     | _ => Go (add_err code s) acc
+                                                     end)) xs s [])
+         (fun s acc => Go s (rev acc)).
 
   Definition collect_pairs (cs : attr_codes) (kvs : list entry) (s : bstate) : res (list (bytes * bytes)) :=
-    each (fun e s acc =>
+    bind (each (fun e s acc =>
             check_entry e s
               (with_type (fst e) (fun tk => match tk with
                 | KScalar => with_type (snd e) (fun tv => match tv with
-                    | KScalar => Go s (acc ++ [(scalar_of (fst e), scalar_of (snd e))])
+                    | KScalar => Go s ((scalar_of (fst e), scalar_of (snd e)) :: acc)
                     | _ => Go (add_err (c_pair_val cs) s) acc
                     end)
                 | _ => Go (add_err (c_pair_key cs) s) acc
-                end))) kvs s [].
+                end))) kvs s [])
+         (fun s acc => Go s (rev acc)).
 
   (* the attribute-value code shared (textually) by tools, nodes and commands *)
   Definition configure_attr (cs : attr_codes) (o : owner) (attribute : bytes) (value : ynode) (s : bstate) : res unit :=
